@@ -1,8 +1,59 @@
 import Oracle.Util
+import Oracle.C12
+import MobiusModel.Presence
 /-! Oracle handlers for C13 (model functions exposed on the line protocol). -/
 namespace Oracle
 open Mobius
 
-def c13Handlers : List (String × Handler) := []
+def optNumN (s : String) : Option Nat := if s = "none" then none else some (num s)
+
+def parsePresEvs : List String → List PresEv
+  | "C" :: l :: an :: ac :: ic :: rest => .connect (hexb l) (hexb an) (hexb ac) (hexb ic) :: parsePresEvs rest
+  | "LN" :: l :: an :: ac :: nm :: ic :: rest => .loginNamed (hexb l) (hexb an) (hexb ac) (hexb nm) (hexb ic) :: parsePresEvs rest
+  | "A" :: a :: r :: nm :: ic :: o :: au :: rest =>
+    .agreed (num a) (num r) (optHex nm) (optHex ic) (num o) (optHex au) :: parsePresEvs rest
+  | "U" :: a :: r :: nm :: ic :: o :: au :: rest =>
+    .setInfo (num a) (num r) (optHex nm) (optHex ic) (optNumN o) (optHex au) :: parsePresEvs rest
+  | "SU" :: a :: r :: l :: f :: ac :: rest => .setUser (num a) (num r) (hexb l) (f == "1") (hexb ac) :: parsePresEvs rest
+  | "D" :: a :: rest => .disconnect (num a) :: parsePresEvs rest
+  | "F" :: a :: r :: rest => .fetch (num a) (num r) :: parsePresEvs rest
+  | "IM" :: a :: r :: t :: m :: q :: rest => .sendIM (num a) (num r) (num t) (hexb m) (optHex q) :: parsePresEvs rest
+  | _ => []
+
+def entryStr (e : Entry) : String := s!"{e.id}/{dataStr e.name}/{toHex e.icon}/{e.flags}"
+def entriesStr (es : List Entry) : String := if es.isEmpty then "." else ",".intercalate (es.map entryStr)
+
+def noteStr : Note → String
+  | .list es => "L[" ++ entriesStr es ++ "]"
+  | .change e => "C[" ++ entryStr e ++ "]"
+  | .left i => s!"X[{i}]"
+  | .other => "o"
+
+def presStateStr (w : PresWorld) : String :=
+  let views := w.reg.clients.map fun c =>
+    s!"{c.id}>" ++ (match w.view c.conn with | some r => entriesStr r | none => "none")
+  s!"ctr={w.reg.counter} list=" ++ entriesStr w.userList ++ " views=" ++ ";".intercalate views
+
+def usedOf (ids : List Nat) (i : Nat) : Bool := ids.contains i
+
+def c13Handlers : List (String × Handler) := [
+  ("c13run", fun (a : List String) =>
+    let evs := parsePresEvs a
+    let (w, outs) := PresWorld.init.run evs
+    s!"{evs.length} " ++ " | ".intercalate (outs.map fun os => outsStr (os.map (·.1))) ++ " || " ++ presStateStr w),
+  -- notes decoded from the wire form of every output vs the ghost notes (1 = all agree)
+  ("c13notes", fun (a : List String) =>
+    let evs := parsePresEvs a
+    let (_, outs) := PresWorld.init.run evs
+    let bad := (outs.flatten.filter fun p => noteOf p.1 != p.2)
+    if bad.isEmpty then "agree" else "differ " ++ ";".intercalate (bad.map fun p => outStr p.1 ++ "~" ++ noteStr (noteOf p.1) ++ "~" ++ noteStr p.2)),
+  -- the allocator: counter, then the ids in use
+  ("c13alloc", fun (a : List String) => match a with
+    | ctr :: ids =>
+      match allocId (usedOf (ids.map num)) 65536 (num ctr) with
+      | some (c, i) => s!"{c} {i}"
+      | none => "none"
+    | _ => "bad-op")
+]
 
 end Oracle
